@@ -209,5 +209,9 @@ Proof.
     destruct (lg_ends _ _ _ _ _ HG ent He d b Hb) as [_ H2].
     rewrite (GraphQueryProofs.term_kmer_single K (nd_seq ent) d L) in H2. exact (H2 P).
 Qed.
+
+Theorem table_lgraph_ok_tbl K st : 1 <= K -> forall (kj : dna -> dna -> bool) (T : table pay) (S' : list dna),
+  tbl_ok pay K st T -> links_loose pay st T S' -> lgraph_ok K st kj S' T.
+Proof. intros HK kj T S' H. apply (table_lgraph_ok K st HK kj T S'). now apply tbl_entries_ok. Qed.
 Print Assumptions censor_eq_filter.
 Print Assumptions lgraph_table_links_loose.
